@@ -11,6 +11,8 @@
 #include <zlib.h>
 
 #include <algorithm>
+#include <locale>
+#include <thread>
 #include <string>
 #include <vector>
 
@@ -662,6 +664,7 @@ struct LoadResult {
 // Presents `disk` (what the simulated disk durably holds) to Image(FILE*). `script` drives the
 // cookie reads (see vfs::Inode::read_script).
 bool g_load_by_name = false; // present the file through Image(filename) instead of Image(FILE*)
+bool g_load_from_pipe = false; // the FILE* cannot seek or tell (a pipe, a socket, standard input)
 
 LoadResult attempt_load_by_name(const string& disk, const std::vector<int>& script);
 
@@ -677,7 +680,7 @@ LoadResult attempt_load(const string& disk, const std::vector<int>& script) {
   vfs::calls_reset();
   window_open();
   {
-    FILE* f = vfs::fopen_inode(ino, "r", nullptr, true);
+    FILE* f = vfs::fopen_inode(ino, "r", nullptr, !g_load_from_pipe);
     try {
       phosg::Image img(f);
       {
@@ -783,6 +786,87 @@ void judge_faulty(const Encoded& enc, const Pic& reference, const string& disk, 
   }
 }
 
+// A program may have installed any global C++ locale; file formats must not follow it.
+struct GroupingPunct : std::numpunct<char> {
+  char do_thousands_sep() const override { return ','; }
+  char do_decimal_point() const override { return ','; }
+  std::string do_grouping() const override { return "\3"; }
+};
+
+struct LocaleGuard {
+  std::locale old;
+  bool on = false;
+  ~LocaleGuard() {
+    if (on) std::locale::global(old);
+  }
+};
+
+// ---- a second thread of the same process, working on a DIFFERENT image with its own streams. It is released
+// when the primary call enters its k-th read()/write() on a simulated stream and runs to completion there (the
+// primary thread is parked in the call, which is where a real scheduler would switch); so the interleaving is
+// chosen by the tape, and nothing runs in parallel.
+struct Intruder {
+  unsigned fire_at = 0, calls = 0;
+  bool fired = false;
+  const phosg::Image* img = nullptr;
+  phosg::Image::Format fmt = phosg::Image::Format::COLOR_PPM;
+  const string* want_bytes = nullptr;
+  const Pic* want_pic = nullptr;
+  bool load_back = false;
+  string failure_class, failure_key, failure_text;
+} g_intruder;
+
+void intruder_job() {
+  Intruder& I = g_intruder;
+  auto ino = std::make_shared<vfs::Inode>();
+  ino->kind = vfs::Kind::REG;
+  FILE* f = vfs::fopen_inode(ino, "w", nullptr, true);
+  try {
+    I.img->save(f, I.fmt);
+  } catch (const std::exception& e) {
+    I.failure_class = "save/threw";
+    I.failure_text = string("the second thread's save(FILE*) threw: ") + e.what();
+  }
+  fclose(f);
+  if (I.failure_class.empty() && ino->data != *I.want_bytes) {
+    I.failure_class = "save/file_differs_from_string";
+    I.failure_text = "the second thread's save(FILE*) wrote " + std::to_string(ino->data.size()) + " bytes that differ from what the same image gives when saved alone (" + std::to_string(I.want_bytes->size()) + " bytes)";
+  }
+  if (I.failure_class.empty() && I.load_back) {
+    FILE* g = vfs::fopen_inode(ino, "r", nullptr, true);
+    try {
+      phosg::Image back(g);
+      Pic got;
+      extract(back, got);
+      string d = pic_diff(got, *I.want_pic, true);
+      if (!d.empty()) {
+        I.failure_class = "roundtrip/differs";
+        I.failure_text = "the second thread's save then load does not reproduce its image: " + d;
+      }
+    } catch (const std::exception& e) {
+      I.failure_class = "load/valid_file_rejected";
+      I.failure_text = string("the second thread's load rejected its own file: ") + e.what();
+    }
+    fclose(g);
+  }
+}
+
+unsigned g_io_calls = 0;
+void counting_hook(bool) { g_io_calls++; }
+
+void intruder_hook(bool) {
+  Intruder& I = g_intruder;
+  if (I.fired) return;
+  if (I.calls++ < I.fire_at) return;
+  I.fired = true;
+  vfs::world().io_hook = nullptr;
+  ev("intruder.runs", I.calls);
+  std::thread t(intruder_job);
+  t.join();
+  ev("intruder.done");
+  VS_FAULT("second_thread_inside_io_call");
+}
+
 } // namespace
 
 // ------------------------------------------------------------------ run
@@ -791,6 +875,14 @@ static void run() {
   vfs::reset();
   // the caller's FILE* may be unbuffered or have a tiny buffer: chunking then reaches the library's loops
   vfs::set_stdio_buffering(pick({0, 0, 1, 16, 255, 256, 4096}, "stdio.buffering"));
+  // a caller never clears errno for the library: it is whatever an earlier, unrelated call left behind
+  set_entry_errno((int)pick({0, 0, EINTR, EAGAIN, ENOENT, EBADF, ENOSPC, ERANGE}, "env.errno_on_entry"));
+  LocaleGuard locale_guard;
+  if (choose(6, "env.locale") == 5) {
+    locale_guard.on = true;
+    locale_guard.old = std::locale::global(std::locale(std::locale::classic(), new GroupingPunct));
+    VS_FAULT("global_locale_groups_digits");
+  }
   Pic src = gen_pic();
   unsigned container = choose(7, "container"); // 0 PPM own, 1 BMP own, 2 PNG own, 3 P5, 4 P6 foreign, 5 P7 foreign, 6 BMP foreign
   bool own = container <= 2;
@@ -992,14 +1084,151 @@ static void run() {
   // ---- fault arm (one time in four the damaged file is presented through Image(filename))
   g_load_by_name = choose(4, "arm.by_name") == 3;
   if (g_load_by_name) VS_PROBE("faulty_file_loaded_by_filename");
+  // ... and otherwise one time in four through a stream that cannot seek
+  g_load_from_pipe = !g_load_by_name && choose(4, "arm.from_pipe") == 3;
+  if (g_load_from_pipe) VS_PROBE("faulty_file_loaded_from_pipe");
   struct ResetByName {
-    ~ResetByName() { g_load_by_name = false; }
+    ~ResetByName() { g_load_by_name = g_load_from_pipe = false; }
   } reset_by_name;
-  unsigned arm = choose(5, "arm");
+  unsigned arm = choose(7, "arm");
   switch (arm) {
     case 0:
       count("arm.none");
       break;
+    case 6: { // a second thread saves and loads another image while this call is inside read()/write()
+      if (!own) {
+        count("arm.none");
+        break;
+      }
+      count("arm.second_thread");
+      mark_nontrivial();
+      g_load_by_name = g_load_from_pipe = false;
+      // small or no stdio buffers: the library's calls reach the stream one by one, so there are many
+      // places for the switch
+      vfs::set_stdio_buffering(pick({1, 16, 255, 256}, "intruder.buffering"));
+      Pic other = gen_pic();
+      unsigned ofmt = choose(3, "intruder.fmt");
+      if (ofmt) {
+        for (auto& q : other.px) {
+          q.r &= 0xFF;
+          q.g &= 0xFF;
+          q.b &= 0xFF;
+          q.a &= 0xFF;
+        }
+        other.cw = 8;
+      }
+      phosg::Image::Format fmt2 = ofmt == 0 ? phosg::Image::Format::COLOR_PPM : (ofmt == 1 ? phosg::Image::Format::WINDOWS_BITMAP : phosg::Image::Format::PNG);
+      phosg::Image other_img = build_image(other);
+      Pic other_expect = other;
+      if (!other.alpha)
+        for (auto& q : other_expect.px) q.a = mask_for(other.cw);
+      string other_bytes = other_img.save(fmt2);
+      phosg::Image::Format fmt = container == 0 ? phosg::Image::Format::COLOR_PPM : (container == 1 ? phosg::Image::Format::WINDOWS_BITMAP : phosg::Image::Format::PNG);
+      phosg::Image img = build_image(src);
+      auto arm_intruder = [&](const char* site, unsigned ncalls) {
+        g_intruder = Intruder();
+        g_intruder.fire_at = ncalls ? choose(ncalls, site) : 0;
+        g_intruder.img = &other_img;
+        g_intruder.fmt = fmt2;
+        g_intruder.want_bytes = &other_bytes;
+        g_intruder.want_pic = &other_expect;
+        g_intruder.load_back = ofmt != 2;
+        vfs::world().io_hook = intruder_hook;
+      };
+      auto judge_intruder = [&](const char* during) {
+        vfs::world().io_hook = nullptr;
+        if (!g_intruder.fired) {
+          count("second_thread.never_ran");
+          return;
+        }
+        if (!g_intruder.failure_class.empty())
+          fail(g_intruder.failure_class, string("second_thread/") + during, g_intruder.failure_text + " (it ran while another thread was inside " + during + " of a different image)");
+      };
+      // (1) during this thread's save
+      set_context("save/" + enc.kind + "/second_thread");
+      {
+        auto ino = std::make_shared<vfs::Inode>();
+        ino->kind = vfs::Kind::REG;
+        // how many stream calls does this save make? (fault-free, so the same number as in the real attempt)
+        {
+          auto scratch = std::make_shared<vfs::Inode>();
+          scratch->kind = vfs::Kind::REG;
+          FILE* sf = vfs::fopen_inode(scratch, "w", nullptr, true);
+          g_io_calls = 0;
+          vfs::world().io_hook = counting_hook;
+          try {
+            img.save(sf, fmt);
+          } catch (const std::exception&) {
+          }
+          fclose(sf);
+          vfs::world().io_hook = nullptr;
+        }
+        FILE* f = vfs::fopen_inode(ino, "w", nullptr, true);
+        arm_intruder("intruder.at.save", g_io_calls);
+        try {
+          img.save(f, fmt);
+        } catch (const std::exception& e) {
+          vfs::world().io_hook = nullptr;
+          fclose(f);
+          fail("save/threw", "second_thread/save", string("Image::save(FILE*) threw while a second thread saved another image: ") + e.what());
+        }
+        fclose(f);
+        judge_intruder("save");
+        if (ino->data != enc.bytes)
+          fail("save/file_differs_from_string", "second_thread/save", "save(FILE*) wrote " + std::to_string(ino->data.size()) + " bytes that differ from save(Format) (" + std::to_string(enc.bytes.size()) + " bytes) when a second thread saved a different image in the middle of the call");
+      }
+      // (2) during this thread's load
+      set_context("load/" + enc.kind + "/second_thread");
+      {
+        auto ino = std::make_shared<vfs::Inode>();
+        ino->kind = vfs::Kind::REG;
+        ino->data = enc.bytes;
+        {
+          FILE* sf = vfs::fopen_inode(ino, "r", nullptr, true);
+          g_io_calls = 0;
+          vfs::world().io_hook = counting_hook;
+          try {
+            phosg::Image scratch(sf);
+          } catch (const std::exception&) {
+          }
+          fclose(sf);
+          vfs::world().io_hook = nullptr;
+        }
+        FILE* f = vfs::fopen_inode(ino, "r", nullptr, true);
+        arm_intruder("intruder.at.load", g_io_calls);
+        Pic got;
+        try {
+          phosg::Image back(f);
+          extract(back, got);
+        } catch (const std::exception& e) {
+          vfs::world().io_hook = nullptr;
+          fclose(f);
+          fail("load/valid_file_rejected", "second_thread/load", string("Image(FILE*) rejected a valid file while a second thread worked on another image: ") + e.what());
+        }
+        fclose(f);
+        judge_intruder("load");
+        string d = pic_diff(got, reference, true);
+        if (!d.empty()) fail("roundtrip/differs", "second_thread/load", "Image(FILE*) decodes differently when a second thread saves and loads another image in the middle of the call: " + d);
+      }
+      break;
+    }
+    case 5: { // the stream is a pipe: no seeking, no telling, pieces of any size
+      count("arm.pipe");
+      mark_nontrivial();
+      std::vector<int> script;
+      unsigned n = choose(40, "pipe.n");
+      for (unsigned i = 0; i < n; i++) script.push_back(1 + choose(4096, "pipe.len"));
+      set_context("load/" + enc.kind + "/pipe");
+      g_load_by_name = false;
+      g_load_from_pipe = true;
+      LoadResult r = attempt_load(enc.bytes, script);
+      g_load_from_pipe = false;
+      VS_FAULT("unseekable_stream");
+      if (r.threw) fail("load/pipe_delivery_rejected", short_kind(enc.kind), "a valid " + enc.kind + " file read from a stream that cannot seek (a pipe) was rejected: " + r.what);
+      string d = pic_diff(r.pic, reference, true);
+      if (!d.empty()) fail("load/pipe_delivery_differs", short_kind(enc.kind), "a valid " + enc.kind + " file read from a stream that cannot seek (a pipe) decodes differently: " + d);
+      break;
+    }
     case 1: { // torn save / truncation: only a prefix became durable
       count("arm.torn");
       mark_nontrivial();
@@ -1148,19 +1377,22 @@ int main(int argc, char** argv) {
   e.rule =
       "one run = one generated picture (1..64 x 1..64, alpha on/off, 8/16/32/64-bit channels, six content generators) in one container (own PPM/BMP/PNG writer or a "
       "foreign P5/P6/P7/BMP variant from the harness's independent encoders) put on a simulated disk, then one fault arm (none / torn write or truncation at drawn or all "
-      "prefix lengths / read error at a drawn read call / chunked delivery / disk full during save); distinct = distinct event-log hash (picture parameters, file bytes, "
+      "prefix lengths / read error at a drawn read call / chunked delivery / disk full during save / stream that cannot seek / a second thread saving and loading another image while the call is inside "
+      "its k-th read or write), under a drawn stdio buffering mode and, one run in six, a global C++ locale that groups digits; distinct = distinct event-log hash (picture parameters, file bytes, "
       "every simulated read/seek/write with its result); non-trivial = a fault arm other than 'none' was taken";
   e.assumptions = {
       "foreign files with samples wider than 8 bits are written in host byte order, the convention phosg itself uses for wide PPM (the netpbm standard says big-endian; phosg does not implement that and the property's own-format clause depends on the host-order convention)",
       "PNM comments (# ...) and the 40-byte-header BMP with trailing masks are not generated (not presented as supported variants)",
       "only truncation/torn writes, read errors, chunking and full disk are injected; bit flips or hostile headers are outside C06",
       "the leak oracle counts heap blocks allocated by the code under test inside the load window and still live when it closes, confirmed by a second identical load",
-      "zlib's inflate is trusted for the PNG validity check; CRC-32 is an own bitwise implementation"};
+      "zlib's inflate is trusted for the PNG validity check; CRC-32 is an own bitwise implementation",
+      "the second thread is a real thread that runs only while the first is parked at the entry of a simulated read()/write(); switches inside the library's own statements are not produced (distinct objects are used, so only state shared behind the API matters)"};
   e.components = {{"phosg Image.cc (load, save_helper, save(FILE*), save(Format), read_pixel/write_pixel), Filesystem.cc (freadx, fwritex, fgets)", "real code from the repository working tree"},
       {"glibc stdio, zlib", "real"},
       {"disk / file", "stub: simulated inode behind fopencookie (vsim/vfs.cc): durable prefix, scripted read sizes and EIO, capacity (full disk), short writes"},
+      {"second caller thread", "real thread, released and joined by the simulator inside the first thread's k-th stream call (k from the tape)"},
       {"PNG/BMP/PPM reference decoders and foreign-file encoders", "harness code in engines/sim_image.cc sharing no code with phosg"}};
-  e.expected_probes = {"independent_decode_checked", "width_not_multiple_of_4", "grayscale_input", "bmp_bitfields_input", "bmp_top_down_input", "torn_every_prefix_of_a_file", "save_hit_full_disk", "saved_by_filename", "loaded_by_filename", "largest_picture_64x64", "faulty_file_loaded_by_filename", "image_move_assigned", "image_copy_assigned", "save_by_filename_on_full_disk"};
-  e.expected_faults = {"truncation", "EIO@read", "short_read", "short_write", "ENOSPC@capacity"};
+  e.expected_probes = {"independent_decode_checked", "width_not_multiple_of_4", "grayscale_input", "bmp_bitfields_input", "bmp_top_down_input", "torn_every_prefix_of_a_file", "save_hit_full_disk", "saved_by_filename", "loaded_by_filename", "largest_picture_64x64", "faulty_file_loaded_by_filename", "image_move_assigned", "image_copy_assigned", "save_by_filename_on_full_disk", "faulty_file_loaded_from_pipe"};
+  e.expected_faults = {"truncation", "EIO@read", "short_read", "short_write", "ENOSPC@capacity", "unseekable_stream", "global_locale_groups_digits", "second_thread_inside_io_call"};
   return driver_main(argc, argv, e);
 }
